@@ -358,6 +358,19 @@ func runGenCase(id string, idx int, gc genCase) J {
 			fail("convert_to_raw_agree", fmt.Sprintf("ConvertToRawFrame: %v %v", w, err))
 			return
 		}
+		// the raw frame itself: its header announces its body, and it converts back to the frame
+		if int(rf.Header.BodyLength) != len(rf.Body) {
+			fail("convert_to_raw_agree", fmt.Sprintf("ConvertToRawFrame: header declares %d body bytes, raw body has %d", rf.Header.BodyLength, len(rf.Body)))
+			return
+		}
+		var back *frame.Frame
+		if p, w := guard(func() { back, err = codec.ConvertFromRawFrame(rf) }); p || err != nil {
+			fail("convert_to_raw_agree", fmt.Sprintf("ConvertFromRawFrame(ConvertToRawFrame(f)): %v %v", w, err))
+			return
+		} else if d := frameEquiv(f, back); d != "" {
+			fail("convert_to_raw_agree", "ConvertFromRawFrame(ConvertToRawFrame(f)): "+d)
+			return
+		}
 		buf := &bytes.Buffer{}
 		if p, w := guard(func() { err = codec.EncodeRawFrame(rf, buf) }); p || err != nil {
 			fail("convert_to_raw_agree", fmt.Sprintf("EncodeRawFrame: %v %v", w, err))
